@@ -61,6 +61,11 @@ CHECKS = {
     text="Kernel-checked for every program and label: the number that replaces a label is the index, in the label-free program, of the (resolved) instruction following the label; the resolved program has no label lines or label operands; the static check implies every referenced label is defined exactly once and resolves. For every compile pair (labels kept / removed, 3-5 option variants) the equality resolve(parse(labelled)) = parse(label-free) is evaluated in Coq on the real outputs, both outputs pass a static jump-target check and are executed against each other. Function names come from adversarial families (prefixes of one another, '<name>end', generated-label and opcode/register look-alikes, also used as device-name strings). A semantic simulation theorem (labelled vs resolved machine runs) is not proved: return addresses differ between the two runs, see DESIGN.",
     note="Trusted: Coq kernel; Machine.v label semantics; ic10.py reader. Two open known findings (label-name clashes: '<name>end' vs function <name>end; functions named like generated labels).",
     design="4 C05"),
+ "C06": dict(
+    category="proof", technique="Coq: shadow-call-stack monitor proved not to disturb the machine; model of add_ra_instructions with shape theorem for all function bodies (fixed-slot) + correspondence in both conventions; monitored execution of generated call graphs",
+    text="Kernel-checked: the monitored run is the machine's run for every program/oracle/fuel/state; for EVERY function body of the emitted shape that makes a call, add_ra_instructions (fixed-slot) yields one push ra on entry and one pop ra after the end label, so every exit (early returns jump to the end label) restores ra; functions without calls or returns are untouched. The model of add_ra_instructions (both conventions) is compared with the real method on 1000+ synthetic instruction lists. Generated programs with functions (arities 0-3, early returns, calls in expressions) are compiled under five option sets; every executed return is checked by the monitor (returns to the call being served, stack-pointer delta 0 / -args+result) and effect traces are compared with the source.",
+    note="Trusted: Coq kernel; Machine.v/Monitor.v; RaInsert.v abstraction of instructions; generator's arities; hook. Monitored runs bounded and sampled. Push/pop placement has no shape theorem (correspondence only). Open known findings: consequences of C07 fall-through, tail call after an inner call.",
+    design="4 C06"),
 }
 
 NOT_YET = {}
